@@ -196,6 +196,39 @@ def _unary_uf(name):
 UF = {n: _unary_uf("uf_" + n) for n in ("exp", "log", "sin", "cos", "erf", "Si", "Ci", "arctan", "tan")}
 
 
+class SymStr:
+    """z3 String wrapper: comparisons with Python str (or SymStr) are symbolic; hashable by identity so that it can be a dict key"""
+    __slots__ = ("e",)
+
+    def __init__(self, e):
+        self.e = e
+
+    def _other(self, o):
+        if isinstance(o, SymStr):
+            return o.e
+        if isinstance(o, str):
+            return z3.StringVal(o)
+        return None
+
+    def __eq__(self, o):
+        oe = self._other(o)
+        if oe is None:
+            return False
+        return SymBool(self.e == oe)
+
+    def __ne__(self, o):
+        oe = self._other(o)
+        if oe is None:
+            return True
+        return SymBool(self.e != oe)
+
+    def __hash__(self):
+        return id(self)
+
+    def __repr__(self):
+        return "SymStr(%s)" % self.e
+
+
 class SymReal:
     __slots__ = ("e",)
 
@@ -984,6 +1017,12 @@ class Env:
         v = z3.String(name)
         self.inputs[name] = v
         return v
+
+    def symstr(self, name, default=""):
+        """string usable as a dict key / list element by real code: == and != against str give SymBool (so `in` branches)"""
+        if self.mode == "conc":
+            return str(self.values.get(name, default))
+        return SymStr(self.string(name))
 
     def bool(self, name):
         if self.mode == "conc":
